@@ -195,6 +195,13 @@ def _global_state_census(ck, repo):
                 owner, attr = parts
                 if owner in ("cls",) and f.cls is not None:
                     writers.setdefault((f.module.name, f.cls.name, attr), []).append((f, s))
+                elif owner == "self" and f.cls is not None and s.kind in ("mutator", "store-item"):
+                    # a class-level container reached through an instance is still the one shared object,
+                    # unless __init__ rebinds the name on the instance
+                    for c in repo.mro(f.cls):
+                        if attr in c.class_attrs and _is_mutable(c.class_attrs[attr]) and attr not in f.cls.self_attrs():
+                            writers.setdefault((c.module.name, c.name, attr), []).append((f, s))
+                            break
                 else:
                     tgt = repo.lookup(repo.resolve_name(f.module, owner))
                     from ..model import Class
